@@ -717,7 +717,31 @@ def priceAttrEq (attrs : List (String × String)) (price : String) : Bool :=
   | some v, some p => (match Dec.parse v with | some q => Dec.eqv p q | none => false)
   | _, _ => false
 
-/-- what the fee accounts were actually paid (for the `ask_fee` / `bid_fee` attributes) -/
+/-- remaining size of the ask under `id` (0 when it is not on the book) -/
+def askSizeAt (s : State) (id : String) : Nat :=
+  match s.asks.get? id with
+  | some a => a.size
+  | none => 0
+
+/-- unfilled size of the bid under `id` (0 when it is not on the book) -/
+def bidRemAt (s : State) (id : String) : Nat :=
+  match loadBid s id with
+  | some b => b.remBase
+  | none => 0
+
+/-- the reported `reverse_size` is the size actually taken off the ask -/
+def askReverseAttrOK (s s' : State) (id : String) (attrs : List (String × String)) : Bool :=
+  match s.asks.get? id with
+  | some a => numAttr attrs "reverse_size" == some (a.size - askSizeAt s' id)
+  | none => false
+
+/-- the reported `reverse_size` is the size actually taken off the bid -/
+def bidReverseAttrOK (s s' : State) (id : String) (attrs : List (String × String)) : Bool :=
+  match loadBid s id with
+  | some b => numAttr attrs "reverse_size" == some (b.remBase - bidRemAt s' id)
+  | none => false
+
+/-- the attributes of an accepted response are truthful -/
 def C17_attrsOK (s : State) (c : Call) (r : Response) (s' : State) : Bool :=
   attr? r.attrs "action" == some (actionName c.msg) &&
   (match c.msg with
@@ -739,33 +763,23 @@ def C17_attrsOK (s : State) (c : Call) (r : Response) (s' : State) : Bool :=
    | .cancelAsk id => attr? r.attrs "id" == some id
    | .cancelBid id =>
      attr? r.attrs "id" == some id &&
-     (match loadBid s id with
-      | some b => numAttr r.attrs "reverse_size" == some (b.remBase - (match loadBid s' id with | some b' => b'.remBase | none => 0))
-      | none => false) &&
+     bidReverseAttrOK s s' id r.attrs &&
      attr? r.attrs "order_open" == some (if (s'.bids.get? id).isSome then "true" else "false")
    | .expireBid id =>
      attr? r.attrs "id" == some id &&
-     (match loadBid s id with
-      | some b => numAttr r.attrs "reverse_size" == some (b.remBase - (match loadBid s' id with | some b' => b'.remBase | none => 0))
-      | none => false) &&
+     bidReverseAttrOK s s' id r.attrs &&
      attr? r.attrs "order_open" == some (if (s'.bids.get? id).isSome then "true" else "false")
    | .rejectBid id _ =>
      attr? r.attrs "id" == some id &&
-     (match loadBid s id with
-      | some b => numAttr r.attrs "reverse_size" == some (b.remBase - (match loadBid s' id with | some b' => b'.remBase | none => 0))
-      | none => false) &&
+     bidReverseAttrOK s s' id r.attrs &&
      attr? r.attrs "order_open" == some (if (s'.bids.get? id).isSome then "true" else "false")
    | .expireAsk id =>
      attr? r.attrs "id" == some id &&
-     (match s.asks.get? id with
-      | some a => numAttr r.attrs "reverse_size" == some (a.size - (match s'.asks.get? id with | some a' => a'.size | none => 0))
-      | none => false) &&
+     askReverseAttrOK s s' id r.attrs &&
      attr? r.attrs "order_open" == some (if (s'.asks.get? id).isSome then "true" else "false")
    | .rejectAsk id _ =>
      attr? r.attrs "id" == some id &&
-     (match s.asks.get? id with
-      | some a => numAttr r.attrs "reverse_size" == some (a.size - (match s'.asks.get? id with | some a' => a'.size | none => 0))
-      | none => false) &&
+     askReverseAttrOK s s' id r.attrs &&
      attr? r.attrs "order_open" == some (if (s'.asks.get? id).isSome then "true" else "false")
    | .executeMatch askId bidId price size =>
      attr? r.attrs "ask_id" == some askId && attr? r.attrs "bid_id" == some bidId &&
@@ -773,8 +787,8 @@ def C17_attrsOK (s : State) (c : Call) (r : Response) (s' : State) : Bool :=
      (match s.asks.get? askId, loadBid s bidId with
       | some a, some b =>
         -- sizes really executed
-        (a.size - (match s'.asks.get? askId with | some a' => a'.size | none => 0)) == size &&
-        (b.remBase - (match loadBid s' bidId with | some b' => b'.remBase | none => 0)) == size &&
+        (a.size - askSizeAt s' askId) == size &&
+        (b.remBase - bidRemAt s' bidId) == size &&
         -- fees really paid
         (match numAttr r.attrs "ask_fee", numAttr r.attrs "bid_fee" with
          | some af, some bf =>
@@ -849,14 +863,18 @@ def shadowCls : AskClass → ShadowCls
   | .pending => .pending
   | .ready _ _ => .ready
 
-/-- the projection of the real book the shadow must equal (as finite maps) -/
+def askProj (a : Ask) : Nat × ShadowCls := (a.size, shadowCls a.cls)
+
+def bidProj : BidEntry → Option Nat
+  | .v3 b => some b.remBase
+  | .v2 _ => none
+
+/-- the shadow equals the projection of the real book (open ids per side, remaining sizes,
+    approval state), as finite maps compared on every key of either -/
 def C17_shadowOK (sh : Shadow) (s : State) : Bool :=
-  (s.asks.all fun kv => Book.get? sh.asks kv.1 == some (kv.2.size, shadowCls kv.2.cls)) &&
-  (sh.asks.all fun kv => (s.asks.get? kv.1).isSome) &&
-  (s.bids.all fun kv =>
-    match kv.2 with
-    | .v3 b => Book.get? sh.bids kv.1 == some b.remBase
-    | .v2 _ => true) &&
-  (sh.bids.all fun kv => (s.bids.get? kv.1).isSome)
+  ((s.asks.keys ++ Book.keys sh.asks).all fun k =>
+    Book.get? sh.asks k == (s.asks.get? k).map askProj) &&
+  ((s.bids.keys ++ Book.keys sh.bids).all fun k =>
+    Book.get? sh.bids k == (s.bids.get? k).bind bidProj)
 
 end Ats.Spec
